@@ -336,7 +336,8 @@ Definition classify (st : state) (c : conn) (m : message) (s : session) : action
       match s_act s with
       | None => if full then ADrop else AEnq                       (* offline: ignore the message if the queue is full *)
       | Some c' =>
-          if c' =? c then (if full then AErr else AEnq)             (* own queue: never wait *)
+          if c' =? c then                                           (* own queue: never wait *)
+            (if full then (if mem_n c (st_dying st) then ASkip else AErr) else AEnq)   (* a closing publisher (will) is skipped *)
           else if full then (if mem_n c' (st_dying st) then ASkip else ABlock)   (* wait for room or for Closing() *)
           else AEnq                                                 (* room: enqueued, closing or not *)
       end
@@ -352,9 +353,25 @@ Definition deliver (err : bool) (got : list skey) (k : skey) (a : action) (m : m
   end.
 
 (* got: the sessions that received the message, consulted only where the Go code is
-   not deterministic: the sessions visited before the publisher's own full queue ended
-   the call with ErrQueueFull (map order). *)
+   not deterministic: the sessions visited before a full queue of a session that names the
+   (live) publisher as active ended the call with ErrQueueFull midway (map order).  After
+   the pre-check this does not happen in any reachable state (BackendOwn.v: that session is
+   the publisher's own one, which the pre-check has examined). *)
+(* the pre-check of Publish, made before anything is changed: the message would have to go to the full queue of the
+   publishing client's own session (client.Session()); a closing client (its will) is not refused *)
+Definition own_refused (st : state) (c : conn) (m : message) : bool :=
+  negb (mem_n c (st_dying st)) &&
+  match session_of st c with
+  | Some (_, s) =>
+      match pick_sub (s_subs s) (m_topic m) with
+      | Some _ => is_full (st_cap st) (queue_of m s)
+      | None => false
+      end
+  | None => false
+  end.
+
 Definition publish (st : state) (c : conn) (m : message) (got : list skey) : result * state :=
+  if own_refused st c m then (RQueueFull, st) else
   let acts_t := map (fun e => classify st c m (snd e)) (st_temps st) in
   let acts_s := map (fun e => classify st c m (snd e)) (st_stored st) in
   let err := existsb is_err acts_t || existsb is_err acts_s in
